@@ -50,4 +50,22 @@ def sweepChk (polys : List (Array (Pt α))) : Bool :=
   | .ok (_, s) => loopChk (s.verts.size + 1) s
   | .error _ => true
 
+/-- the number of active edges at the start of every pass of the event loop (before the first event
+    and after every successfully handled one): what the instrumented implementation
+    (`--cfg cavint_verif`, `VERIF_ACTIVE_TRACE`) records -/
+def loopTrace : Nat → St α → List Nat → List Nat
+  | 0, _, acc => acc.reverse
+  | fuel + 1, s, acc =>
+    if s.events.isEmpty then (s.active.length :: acc).reverse
+    else
+      match (handleNext : SM α Unit).run s with
+      | .ok (_, s') => loopTrace fuel s' (s.active.length :: acc)
+      | .error _ => (s.active.length :: acc).reverse
+
+/-- the trace for the whole model: set-up, then `loopTrace` (empty when set-up fails) -/
+def sweepTrace (polys : List (Array (Pt α))) : List Nat :=
+  match (forIn polys ([] : List (Pt α)) polyBody).run (initSt : St α) with
+  | .ok (_, s) => loopTrace (s.verts.size + 1) s []
+  | .error _ => []
+
 end Cav.SweepMon
